@@ -17,6 +17,8 @@ import (
 )
 
 import (
+	"github.com/bfenetworks/bfe/bfe_bufio"
+	"github.com/bfenetworks/bfe/bfe_http"
 	"github.com/bfenetworks/bfe/bfe_module"
 )
 
@@ -31,6 +33,7 @@ type verifC27Conn struct {
 	gate    chan struct{}
 	entered chan struct{}
 	once    sync.Once
+	gateAt  int // the gate is at the first Write called when at least gateAt bytes are already out
 }
 
 func (c *verifC27Conn) Read(p []byte) (int, error) {
@@ -40,7 +43,7 @@ func (c *verifC27Conn) Read(p []byte) (int, error) {
 	return c.in.Read(p)
 }
 func (c *verifC27Conn) Write(p []byte) (int, error) {
-	if c.gate != nil {
+	if c.gate != nil && c.out.Len() >= c.gateAt {
 		c.once.Do(func() { close(c.entered) })
 		<-c.gate
 	}
@@ -79,6 +82,7 @@ func verifC27Server(keepAlive bool) *BfeServer {
 // VerifC27Action is one step of the scripted handler.
 //   'S' Header().Set(Key,Val)   'A' Header().Add(Key,Val)   'H' WriteHeader(Code)
 //   'W' Write(Data)             'F' Flush()
+// WriteRes additionally: 4 = nil error with n != len(Data), 5 = refusal with n != 0 (io.Writer contract)
 type VerifC27Action struct {
 	Kind byte
 	Key  string
@@ -113,9 +117,15 @@ type VerifC27Exchange struct {
 // its own goroutine and stalls inside its first write to the client socket (wherever the connection's
 // 4 KB buffer first overflows or is flushed — for a head larger than 4 KB that is inside
 // Header.WriteSubset); then exchange B runs from start to end; then A is released.  The schedule is
-// driven by channel events only.  hang reports that A neither stalled nor finished within 5 s.
+// driven by channel events only.  hang reports that A neither stalled nor finished within 30 s.
 func VerifC27RunPair(a, b VerifC27Exchange) (ra, rb VerifC27Result, hang bool) {
-	ca := &verifC27Conn{in: bytes.NewReader(a.Input), gate: make(chan struct{}), entered: make(chan struct{})}
+	return VerifC27RunPairAt(a, b, 0)
+}
+
+// VerifC27RunPairAt is VerifC27RunPair with the stall at the first socket write of A that happens when at
+// least gateAt bytes of A's response are already on the wire (gateAt > head size: A stalls mid-body).
+func VerifC27RunPairAt(a, b VerifC27Exchange, gateAt int) (ra, rb VerifC27Result, hang bool) {
+	ca := &verifC27Conn{in: bytes.NewReader(a.Input), gate: make(chan struct{}), entered: make(chan struct{}), gateAt: gateAt}
 	done := make(chan struct{})
 	go func() {
 		defer close(done)
@@ -129,7 +139,7 @@ func VerifC27RunPair(a, b VerifC27Exchange) (ra, rb VerifC27Result, hang bool) {
 	select {
 	case <-ca.entered:
 	case <-done:
-	case <-time.After(5 * time.Second):
+	case <-time.After(30 * time.Second):
 		close(ca.gate)
 		return ra, rb, true
 	}
@@ -137,7 +147,7 @@ func VerifC27RunPair(a, b VerifC27Exchange) (ra, rb VerifC27Result, hang bool) {
 	close(ca.gate)
 	select {
 	case <-done:
-	case <-time.After(5 * time.Second):
+	case <-time.After(30 * time.Second):
 		return VerifC27Result{}, rb, true
 	}
 	return ra, rb, false
@@ -166,7 +176,15 @@ func verifC27RunOn(fc *verifC27Conn, input []byte, keepAlive bool, script []Veri
 		case 'F':
 			w.Flush()
 		case 'W':
-			_, err := w.Write(a.Data)
+			n, err := w.Write(a.Data)
+			switch {
+			case err == nil && n != len(a.Data):
+				res.WriteRes = append(res.WriteRes, 4) // io.Writer contract: n < len(p) needs an error
+				continue
+			case err != nil && n != 0 && (err == ErrBodyNotAllowed || err == ErrContentLength):
+				res.WriteRes = append(res.WriteRes, 5) // a refused Write reports bytes as written
+				continue
+			}
 			switch err {
 			case nil:
 				res.WriteRes = append(res.WriteRes, 0)
@@ -194,4 +212,38 @@ func VerifC27ResetStatusCache() {
 	statusMu.Lock()
 	statusLines = make(map[int]string)
 	statusMu.Unlock()
+}
+
+// VerifC27RunBackend answers the client request in `input` with a backend response given as WIRE bytes:
+// real conn.readRequest, real bfe_http.ReadResponse on the backend bytes, real ReverseProxy.sendResponse
+// (CopyHeader, WriteHeader, copyResponse) and real finishRequest.  A sendResponse error is handled as
+// ReverseProxy.ServeHTTP does: the connection is closed after the reply (reported in CloseAfterReply).
+// ReadErr "backend" = ReadResponse rejected the backend bytes.
+func VerifC27RunBackend(input []byte, keepAlive bool, backendWire []byte) (res VerifC27Result, sendErr bool) {
+	fc := &verifC27Conn{in: bytes.NewReader(input)}
+	srv := verifC27Server(keepAlive)
+	c, _ := newConn(fc, srv)
+	rd := c.buf.Reader
+	base := rd.TotalRead
+	request, err := c.readRequest()
+	if err != nil {
+		res.ReadErr = err.Error()
+		return res, false
+	}
+	w := newResponse(c, request.HttpRequest)
+	bres, err := bfe_http.ReadResponse(bfe_bufio.NewReader(bytes.NewReader(backendWire)), request.HttpRequest)
+	if err != nil {
+		res.ReadErr = "backend"
+		return res, false
+	}
+	if err := srv.ReverseProxy.sendResponse(w, bres, 0, false); err != nil {
+		sendErr = true
+	}
+	w.finishRequest()
+	res.CloseAfterReply = w.closeAfterReply || sendErr
+	res.LimitHit = w.requestBodyLimitHit
+	res.BodyLeft = len(input) - (rd.TotalRead - base)
+	c.finalFlush()
+	res.Out = append([]byte(nil), fc.out.Bytes()...)
+	return res, sendErr
 }
